@@ -383,5 +383,147 @@ theorem single_via_reverse_failure_counterexample :
     · decide +kernel
     · decide
 
+/-! ## PART B — Yen's algorithm (`yens_algorithm::run`)
+
+The model (`Model/Ksp.lean`: `yens`, `yenWhile`, `yenFor`, `yenSpur`, `yenScan`) is faithful to the
+code including the outcomes in which the code does not return (`KspOutcome.diverges`).  The property
+is FALSE of it in almost every clause.  What holds is proved (`…_partial`); every clause that fails
+has a machine-checked counterexample, evaluated on the model with the schedules the implementation
+took on the same network (the harness corpus reproduces each on the real code in a child process).
+
+FULL STATEMENT (false of the code), for the record: for every configuration, origin/destination,
+k ≥ 1, similarity `sim`, criterion and schedules, `yens … = .ok r` (never `.diverges`, and `.err`
+only where the underlying search fails on the query itself) with `1 ≤ r.routes.length ≤ k`, the
+first route that of the underlying search, every route a loop-free contiguous walk with accumulated
+state, pairwise distinct and pairwise dissimilar. -/
+
+/-- PARTIAL (holds): a returned result starts with the underlying search's route — so "the first is
+a least-cost route" follows from C02 exactly as for single-via — and holds at least one route -/
+theorem yens_first_route_partial {c : Config α} {sim : List Nat → List Nat → Except ErrKind Bool}
+    {term : KspTerm} {source target k : Nat} {scheds : List (List Nat)} {r : AlgResult α}
+    (h : yens c sim term source target k scheds = .ok r) :
+    ∃ fres first, runVertexOriented c.fwd.inst source (some target) (scheds.headD []) = .ok fres ∧
+      fres.route = some first ∧ r.routes.head? = some first ∧ 1 ≤ r.routes.length := by
+  obtain ⟨fres, first, h1, h2, h3⟩ := yens_first_route h
+  refine ⟨fres, first, h1, h2, h3, ?_⟩
+  cases hr : r.routes with
+  | nil => rw [hr] at h3; cases h3
+  | cons a rest => simp
+
+/-- PARTIAL (holds): for k ≤ 1 Yen returns exactly the underlying search's route, tree and one
+iteration, on every network — the only setting in which the whole property holds (k = 1) -/
+theorem yens_k_le_one_partial {c : Config α} {sim : List Nat → List Nat → Except ErrKind Bool}
+    {term : KspTerm} {source target k : Nat} (hk : k ≤ 1) {scheds : List (List Nat)}
+    {fres : SearchResult α} {first : List (Branch α)}
+    (hrun : runVertexOriented c.fwd.inst source (some target) (scheds.headD []) = .ok fres)
+    (hfirst : fres.route = some first) :
+    yens c sim term source target k scheds =
+      .ok { trees := [fres.final.sol], routes := [first], iterations := 1 } :=
+  yens_k_le_one hk hrun hfirst
+
+/-- COUNTEREXAMPLE to termination, general form: on EVERY network where the shortest route has
+exactly two edges, every k ≥ 2, similarity and criterion, the call does not return -/
+theorem yens_two_edge_route_counterexample {c : Config α}
+    {sim : List Nat → List Nat → Except ErrKind Bool} {term : KspTerm} {source target k : Nat}
+    (hk : 2 ≤ k) {scheds : List (List Nat)} {fres : SearchResult α} {b1 b2 : Branch α}
+    (hrun : runVertexOriented c.fwd.inst source (some target) (scheds.headD []) = .ok fres)
+    (hfirst : fres.route = some [b1, b2]) :
+    yens c sim term source target k scheds = .diverges "no-progress" :=
+  yens_two_edge_route_diverges hk hrun hfirst
+
+/-- COUNTEREXAMPLE to termination, general form: on EVERY network where the shortest route is a
+single edge, every k ≥ 2, criterion, and similarity function that does not itself fail, the call
+does not return (`len - 2` underflows; with `AcceptAll` `accepted` grows every turn) -/
+theorem yens_one_edge_route_counterexample {c : Config α}
+    {sim : List Nat → List Nat → Except ErrKind Bool} {term : KspTerm} {source target k : Nat}
+    (hk : 2 ≤ k) (hsim : ∀ a b, ∃ r, sim a b = .ok r) {scheds : List (List Nat)}
+    {fres : SearchResult α} {b : Branch α} {er : EdgeRec α}
+    (hrun : runVertexOriented c.fwd.inst source (some target) (scheds.headD []) = .ok fres)
+    (hfirst : fres.route = some [b]) (hedge : c.edges[b.edge]? = some er) (hdst : er.dst = target) :
+    yens c sim term source target k scheds = .diverges "underflow" :=
+  yens_one_edge_route_diverges hk hsim hrun hfirst hedge hdst
+
+/-- the two general forms are not vacuous: the diamond (two-edge shortest route — the very network
+of the single-via witness) and a one-edge route with a detour, Dijkstra, AcceptAll, k = 2 -/
+theorem yens_short_route_diverges_counterexample :
+    Example.obsOf (yens Example.diamond simAcceptAll .exact 0 3 2 [[0, 1, 3]]) = .diverges "no-progress" ∧
+    Example.obsOf (yens Example.oneEdge simAcceptAll .exact 0 1 2 [[0, 1]]) = .diverges "underflow" :=
+  ⟨Example.yen_two_edge, Example.yen_one_edge⟩
+
+/-- COUNTEREXAMPLE to termination with longer routes: when no candidate is dissimilar to an
+accepted route nothing is pushed and the `while` loop repeats the same spur searches for ever
+(`0 → 1 → 2 → 3` with the alternative `1 → 4 → 3`, "similar" = shares an edge, k = 2) -/
+theorem yens_no_dissimilar_candidate_counterexample :
+    Example.obsOf (yens (Example.alt3 []) (Example.shareAtLeast 1) .exact 0 3 2
+      [[0, 1, 2, 4, 3], [1, 4, 3]]) = .diverges "no-progress" :=
+  Example.yen_no_dissimilar_candidate
+
+/-- COUNTEREXAMPLE to "an answerable query is not turned into an error": on `0 → 1 → 2 → 3` the
+underlying search answers with `[e0, e1, e2]`; with k = 2 the spur search from 1 (edge e1 cut) finds
+no path and its error is propagated with `?`.  Origin = destination, k = 2: the empty route makes
+`len - 2` underflow and the first turn fails with "root path is empty". -/
+theorem yens_spur_failure_propagated_counterexample :
+    (Example.idsOf (Example.line3.runVertex 0 (some 3) [0, 1, 2, 3]) = .ok [[0, 1, 2]] ∧
+      Example.obsOf (yens Example.line3 simAcceptAll .exact 0 3 2 [[0, 1, 2, 3], [1]]) = .err .noPath) ∧
+    (Example.idsOf (Example.pair.runVertex 0 (some 0) []) = .ok [[]] ∧
+      Example.obsOf (yens Example.pair simAcceptAll .exact 0 0 2 [[]]) = .err .internal) :=
+  ⟨Example.yen_spur_failure, Example.yen_origin_is_destination⟩
+
+/-- COUNTEREXAMPLE to "at most k routes": the best candidate is pushed inside the spur loop, after
+every spur index, and nothing truncates: three routes for k = 2 (four-edge route, two spur vertices,
+the second alternative cheaper); and for k = 0 the shortest route is returned all the same -/
+theorem yens_more_than_k_counterexample :
+    Example.obsOf (yens (Example.twoSpurs 3 (3 / 2)) simAcceptAll .exact 0 4 2
+      [[0, 1, 2, 3, 6, 4], [1, 5, 4], [2, 6, 4]]) =
+      .routes [[0, 1, 2, 3], [0, 4, 5], [0, 1, 6, 7]] ∧
+    Example.obsOf (yens Example.diamond simAcceptAll .exact 0 3 0 [[0, 1, 3]]) = .routes [[0, 1]] :=
+  ⟨Example.yen_more_than_k, Example.yen_k0⟩
+
+/-- COUNTEREXAMPLE to "no two routes have the same edge sequence": when the second spur's candidate
+is not cheaper, the unchanged best candidate is pushed a second time -/
+theorem yens_duplicate_route_counterexample :
+    Example.obsOf (yens (Example.twoSpurs 2 3) simAcceptAll .exact 0 4 2
+      [[0, 1, 2, 5, 3, 4], [1, 5, 4], [2, 6, 4]]) =
+      .routes [[0, 1, 2, 3], [0, 4, 5], [0, 4, 5]] :=
+  Example.yen_duplicate
+
+/-- COUNTEREXAMPLE to "correctly accumulated state": the spur search starts from the INITIAL state
+at the spur vertex, so the second route `[e0, e3, e4]` (lengths 1, 2, 2) reports distances
+1, 2, 4 — not 1, 3, 5 — and, with a turn-delay model, no delay at the junction -/
+theorem yens_state_not_accumulated_counterexample :
+    Example.obsOf (yens (Example.alt3 []) simAcceptAll .exact 0 3 2 [[0, 1, 2, 4, 3], [1, 4, 3]]) =
+      .routes [[0, 1, 2], [0, 3, 4]] ∧
+    Example.statesOf (yens (Example.alt3 []) simAcceptAll .exact 0 3 2 [[0, 1, 2, 4, 3], [1, 4, 3]]) =
+      [[[1], [2], [3]], [[1], [2], [4]]] :=
+  Example.yen_state_not_accumulated
+
+/-- COUNTEREXAMPLE to "loop-free": only the edge after the root is cut, not the root's vertices; the
+spur path `1 → 0 → 4 → 3` returns through the origin: route `[e0, e3, e4, e5]` visits 0 twice -/
+theorem yens_loop_in_route_counterexample :
+    Example.obsOf (yens Example.loopy simAcceptAll .exact 0 3 2 [[0, 1, 4, 2, 3], [1, 0, 4, 3]]) =
+      .routes [[0, 1, 2], [0, 3, 4, 5]] ∧
+    Example.loopy.edges[0]?.map (·.src) = some 0 ∧ Example.loopy.edges[4]?.map (·.src) = some 0 := by
+  exact ⟨Example.yen_loop, by decide +kernel, by decide +kernel⟩
+
+/-- COUNTEREXAMPLE to "no two routes are similar": a candidate is kept when it is dissimilar to ANY
+accepted route.  With "similar" = two common edges, `[e0, e3, e4, e5]` is returned together with
+`[e0, e3, e8, e9]` (and k = 3 yields four routes) -/
+theorem yens_similar_routes_counterexample :
+    Example.obsOf (yens Example.fan (Example.shareAtLeast 2) .exact 0 9 3
+      [[0, 1, 2, 3, 6, 5, 4, 9], [1, 3, 6, 5, 4, 9], [1, 5, 9], [3, 4, 9]]) =
+      .routes [[0, 1, 2], [0, 3, 8, 9], [0, 6, 7], [0, 3, 4, 5]] ∧
+    Example.shareAtLeast 2 [0, 3, 4, 5] [0, 3, 8, 9] = .ok true ∧
+    Example.shareAtLeast 2 [0, 3, 8, 9] [0, 3, 4, 5] = .ok true := by
+  exact ⟨Example.yen_similar, by decide, by decide⟩
+
+/-- COUNTEREXAMPLE to "valid route" under a turn-restriction model: the spur search starts at the
+spur vertex without a previous edge, so the junction turn (e0, e3) — restricted — is never shown to
+the frontier model and the route `[e0, e3, e4]` is returned -/
+theorem yens_restricted_turn_counterexample :
+    (Example.alt3 [.turnRestriction [(0, 3)]]).frontier = [.turnRestriction [(0, 3)]] ∧
+    Example.obsOf (yens (Example.alt3 [.turnRestriction [(0, 3)]]) simAcceptAll .exact 0 3 2
+      [[0, 1, 2, 3], [1, 4, 3]]) = .routes [[0, 1, 2], [0, 3, 4]] :=
+  ⟨rfl, Example.yen_restricted_turn⟩
+
 end C13
 end Compass
